@@ -447,8 +447,10 @@ pub fn apply<P: PType>(map: &mut PrefixMap<P, u32>, model: &mut Model, w: &Walk,
         }
         K::GetMutWrite => {
             let want = model.get(nk).map(|e| e.val);
+            let ro = map.get(&p).copied();
             let got = map.get_mut(&p);
             expect!(out, got.as_deref().copied() == want, "C01", "PrefixMap::get_mut", "value", "get_mut({:x?}) -> {:?}, model {:?}", k, got, want);
+            expect!(out, got.as_deref().copied() == ro, "C13", "PrefixMap::get_mut", "differs-from-read-only-lookup", "get_mut({:x?}) -> {:?}, get -> {:?}", k, got, ro);
             if let Some(r) = got {
                 *r = tok;
                 if want.is_some() {
@@ -458,9 +460,11 @@ pub fn apply<P: PType>(map: &mut PrefixMap<P, u32>, model: &mut Model, w: &Walk,
         }
         K::GetLpmMutWrite => {
             let want = model.lpm(nk);
+            let ro = map.get_lpm(&p).map(|(p, v)| obs(p, v));
             let got = map.get_lpm_mut(&p);
             let got_o = got.as_ref().map(|(p, v)| obs(*p, v));
             expect!(out, got_o == want, "C02", "PrefixMap::get_lpm_mut", "lpm", "get_lpm_mut({:x?}) -> {:x?}, model {:x?}", k, got_o, want);
+            expect!(out, got_o == ro, "C13", "PrefixMap::get_lpm_mut", "differs-from-read-only-lookup", "get_lpm_mut({:x?}) -> {:x?}, get_lpm -> {:x?}", k, got_o, ro);
             if let Some((_, r)) = got {
                 *r = tok;
                 if let Some(o) = got_o {
